@@ -21,7 +21,7 @@ import re
 
 import vlib
 
-K = {"quick": 4, "thorough": 128}
+K = {"quick": 4, "thorough": 48}     # 128 before the round 3-4 passes multiplied the work per concrete case
 FASTLOG_OVERFLOW = re.compile(r"\[2048\]|length 2048|capacity 2048|\[:-\d+\]")
 CONFIGS = {"quick": [None], "thorough": [0, 1, 2]}     # NIC configurations (None: seed modulo 3)
 
@@ -65,8 +65,8 @@ def spec_lines(recs):
 # ---------------------------------------------------------------------------------------------
 # code side
 
-def run_driver(ctx, binary, vectors_path, out_path, k, cfg=None, ids=None, allocs=False, timeout=1500):
-    args = ["-vectors", vectors_path, "-out", out_path, "-k", k, "-j", 4]
+def run_driver(ctx, binary, vectors_path, out_path, k, cfg=None, ids=None, allocs=False, timeout=3600):
+    args = ["-vectors", vectors_path, "-out", out_path, "-k", k, "-j", 8]
     if cfg is not None:
         args += ["-cfg", cfg]
     if ids:
